@@ -145,9 +145,20 @@ def run_main_cli(model_spec, opts, inputs):
         argv = cli_argv(model_spec, opts, tmpdir)
         if argv is None:
             return None
-        if len(inputs) == 1:
+        size = sum(len(t) for t in inputs)
+        if len(inputs) == 1 and size % 3:
             sys.stdin = io.StringIO(inputs[0], newline=None)
         else:
+            # a quarter of the file runs each: files in UTF-16 with "--encoding utf-16" AFTER the FILE
+            # arguments, files with a UTF-8 signature and "--encoding utf-8-sig" BEFORE them
+            enc, after = [('utf-8', None), ('utf-8', None), ('utf-16', True), ('utf-8-sig', False)][(size // 3) % 4]
+            try:
+                for text in inputs:
+                    text.encode(enc)
+            except UnicodeError:
+                enc, after = 'utf-8', None
+            if after is False:
+                argv += ['--encoding', enc]
             # FILE arguments are told apart by position, not by name: half of the runs give every
             # input the same base name in a directory of its own (dev/amr.txt test/amr.txt)
             same_names = sum(len(t) for t in inputs) % 2 == 0
@@ -157,9 +168,11 @@ def run_main_cli(model_spec, opts, inputs):
                     path = os.path.join(tmpdir, f'd{k}', 'amr.txt')
                 else:
                     path = os.path.join(tmpdir, f'in{k}.txt')
-                with open(path, 'w', encoding='utf-8', newline='') as fh:
+                with open(path, 'w', encoding=enc, newline='') as fh:
                     fh.write(text)
                 argv.append(path)
+            if after:
+                argv += ['--encoding', enc]
             sys.stdin = io.StringIO('')
         sys.argv = argv
         sys.stdout = out
